@@ -28,11 +28,6 @@ end
 
 variable {K : Type} [Field K] [LinearOrder K] [IsStrictOrderedRing K] [FloorRing K] {d : Nat}
 
-/-- nibabel rejects the matrix `write_nifti_image` passes for every grid dimension but 4. -/
-theorem writeAffine_error (g : Grid d K) (hd : d ≠ 4) : writeAffine g = .error .value := by
-  unfold writeAffine nibabelAcceptsAffine
-  simp [hd]
-
 /-- a value the `|x| < ε → 0` clamp leaves alone. -/
 def NotTiny (x : K) : Prop := x = 0 ∨ (1 : K) / 4503599627370496 ≤ |x|
 
@@ -51,16 +46,16 @@ theorem affine_entry (g : Grid d K) (i j : Fin d) : g.affine i j = g.direction i
   have := congrFun (congrFun (affine_eq g) i) j
   simpa [Matrix.mul_diagonal] using this
 
-/-- entries of the repaired 4×4 affine (before the sign flips are undone by the reader). -/
-theorem writeAffineFixed_block (g : Grid d K) (hd : d ≤ 3) (i j : Fin d) :
-    writeAffineFixed g ⟨i.val, by omega⟩ ⟨j.val, by omega⟩ =
+/-- entries of the written 4×4 affine (before the sign flips are undone by the reader). -/
+theorem writeAffine_block (g : Grid d K) (hd : d ≤ 3) (i j : Fin d) :
+    writeAffine g ⟨i.val, by omega⟩ ⟨j.val, by omega⟩ =
       if i.val < 2 then - (g.direction i j * g.spacing j) else g.direction i j * g.spacing j := by
-  unfold writeAffineFixed flipRows
+  unfold writeAffine flipRows
   simp only [i.isLt, j.isLt, dif_pos, Fin.eta, affine_entry]
 
-theorem writeAffineFixed_col3 (g : Grid d K) (hd : d ≤ 3) (i : Fin d) :
-    writeAffineFixed g ⟨i.val, by omega⟩ 3 = if i.val < 2 then - g.origin i else g.origin i := by
-  unfold writeAffineFixed flipRows
+theorem writeAffine_col3 (g : Grid d K) (hd : d ≤ 3) (i : Fin d) :
+    writeAffine g ⟨i.val, by omega⟩ 3 = if i.val < 2 then - g.origin i else g.origin i := by
+  unfold writeAffine flipRows
   have h3 : ¬ ((3 : Fin 4).val < d) := by simp; omega
   simp only [i.isLt, dif_pos, h3, dif_neg, not_false_eq_true, Fin.eta]
   simp
